@@ -195,18 +195,41 @@ def body(ctx):
             kind = rng.choice(["float", "int", "text"])
             if kind == "float":
                 cols[cn] = [rng.choice([1, -1]) * 10 ** rng.uniform(-9, 6) * rng.random() for _ in range(nrow)]
+                if rng.random() < 0.3:
+                    # values that look like conventional "missing data" codes are data like any other
+                    cols[cn][rng.randrange(nrow)] = rng.choice([-999.0, -9999.0, -99.0, -999.000001, 9999.0, -1.0, 0.0, 1e30, -1e-30])
             elif kind == "int":
                 cols[cn] = [rng.randint(-10 ** 6, 10 ** 6) for _ in range(nrow)]
+                if rng.random() < 0.3:
+                    cols[cn][rng.randrange(nrow)] = rng.choice([-999, -9999, -99, 9999, -1, 0, 2 ** 31, -2 ** 40])
             else:
                 cols[cn] = [rng.choice(["t", "t", "#", "#1 ", "x:"]) + "".join(rng.choice(string.ascii_letters + ' ,":#;') for _ in range(rng.randint(1, 6))) + "z" for _ in range(nrow)]
         df = pd.DataFrame(cols)
+        # frames with a history: the index is no longer the default row counter (selection, sorting, reversal, a date or
+        # text index); it is not written (write_index=False) and must not leak into the columns
+        hist = rng.choice(["fresh", "fresh", "selected", "sorted", "reversed", "dates", "labels"])
+        if hist != "fresh":
+            big = pd.DataFrame({cn: (list(v) + list(v))[:nrow * 2] for cn, v in cols.items()})
+            if hist == "selected":
+                keep = sorted(rng.sample(range(2 * nrow), nrow))
+                df = big.iloc[[i in keep for i in range(2 * nrow)]]
+            elif hist == "sorted":
+                df = df.sort_values(colnames[0], kind="stable", ascending=False)
+            elif hist == "reversed":
+                df = df.iloc[::-1]
+            elif hist == "dates":
+                df = df.set_axis(pd.date_range("2001-01-01", periods=nrow, freq="D"), axis=0)
+            else:
+                df = df.set_axis([f"r{i}" for i in range(nrow)], axis=0)
+            cols = {cn: list(df[cn].values) for cn in colnames}
+            cols = {cn: [v.item() if hasattr(v, "item") else v for v in vals] for cn, vals in cols.items()}
         comment = {gen_key(rng): gen_val(rng) for _ in range(rng.randint(0, 3))}
         mode = rng.choice(["plain", "zip.csv", "zip.zip", "zip.noext", "zip.dots", "archive"])
         ff = rng.choice(fmts)
         base = rng.choice(["data", "d_1", "Run-A"])
         fname = {"plain": base + ".csv", "zip.csv": base + ".csv", "zip.zip": base + ".zip", "zip.noext": base,
                  "zip.dots": base + ".v2.csv", "archive": "sub/folder/" + base + ".csv"}[mode]
-        case = {"mode": mode, "name": fname, "float_format": ff, "comment": comment, "columns": colnames, "nrow": nrow}
+        case = {"mode": mode, "name": fname, "float_format": ff, "comment": comment, "columns": colnames, "nrow": nrow, "frame_history": hist}
         try:
             if mode == "archive":
                 with zipfile.ZipFile(e2e / "arc.zip", "w") as arc:
